@@ -30,6 +30,11 @@ class C03(framework.PropertyCheck):
                 e = sig
                 for lvl in range(rng.randint(33, 45)):
                     e = f'(reval {e} {1 if lvl % 2 else -1})'
+            if c % 10 == 9 and ntr == 1:
+                # an offset that evaluates to zero inside another offset, and a read after it: the inner one changes nothing
+                e = rng.choice(['(list (reval INDEX 0) INDEX top.cnt)', '(+ (reval top.cnt (- 1 1)) top.cnt)',
+                                "(map (fn [d] (reval top.cnt d)) '(-1 0 1))", '(list top.cnt@0 top.clk@0 TS)',
+                                '(do (define z9 (- INDEX INDEX)) (list (reval top.cnt z9) top.cnt INDEX))'])
             nmax = max(lens)
             pairs = []
             all_pairs = tier == 'thorough' and nmax <= 5 and c % 4 == 0
